@@ -38,6 +38,12 @@ pub fn sym_config(prefer_prefix: Option<bool>) -> SymCfg {
 /// `path`: Some(b) fixes the bonus profile per harness instance (keeps the delimiter table a
 /// constant for the solver); None leaves it symbolic.
 pub fn sym_config_p(path: Option<bool>, prefer_prefix: Option<bool>) -> SymCfg {
+    sym_config_full(path, None, prefer_prefix)
+}
+
+/// `ignore_case`: Some(b) fixes case folding per harness instance (the substring matcher picks
+/// one of four search strategies from it; a concrete value keeps only the live ones)
+pub fn sym_config_full(path: Option<bool>, ignore_case: Option<bool>, prefer_prefix: Option<bool>) -> SymCfg {
     let path = match path {
         Some(b) => b,
         None => sym::bool_(),
@@ -47,7 +53,10 @@ pub fn sym_config_p(path: Option<bool>, prefer_prefix: Option<bool>) -> SymCfg {
     } else {
         Config::DEFAULT
     };
-    cfg.ignore_case = sym::bool_();
+    cfg.ignore_case = match ignore_case {
+        Some(b) => b,
+        None => sym::bool_(),
+    };
     cfg.normalize = sym::bool_();
     cfg.prefer_prefix = match prefer_prefix {
         Some(b) => b,
